@@ -648,7 +648,8 @@ def run_generations(spec, acc, ctx, mode, sig_prefix=""):
         sch = L.SSEScheme(copy.deepcopy(cfg))
         key = sch.KeyGen()
         bad = False
-        ngen = spec.get("generations", 60)
+        edb = None
+        ngen = spec.get("generations", 120)
         for g in range(ngen):
             same_key_mode = g < ngen // 2          # first half: one key; second half: a new key object every generation
             if bad or ctx.out_of_time():
@@ -664,10 +665,17 @@ def run_generations(spec, acc, ctx, mode, sig_prefix=""):
                 db[universe[0]] = pool[:2]
             shadow = copy.deepcopy(db)
             try:
-                edb = sch.EDBSetup(key, db)
                 if rng.random() < 0.5:
-                    # ... or the index comes back from its serialized form (what a server or a restarted client holds)
-                    edb = L.SSEEncryptedDatabase.deserialize(edb.serialize(), L.SSEConfig(copy.deepcopy(cfg)))
+                    # the next index is prepared (built and serialized) while the current one is still alive; only then is
+                    # the current one dropped and the next one restored from its bytes - the allocation that follows the
+                    # release most directly, as in a server that reloads an index
+                    raw_next = sch.EDBSetup(key, db).serialize()
+                    cobj_next = L.SSEConfig(copy.deepcopy(cfg))
+                    edb = None
+                    edb = L.SSEEncryptedDatabase.deserialize(raw_next, cobj_next)
+                else:
+                    edb = None
+                    edb = sch.EDBSetup(key, db)
             except Exception as e:
                 acc.violation(f"{short}:{sig_prefix}edbsetup-raised:generations:{exc_site(e)}",
                               f"{scheme}: generation {g} of a collection re-indexed by one scheme object raised "
@@ -702,9 +710,11 @@ def run_generations(spec, acc, ctx, mode, sig_prefix=""):
                                   {"scheme": scheme, "cfg": cfg, "generations": True, "same_key": same_key_mode})
                     bad = True
                     break
-            del edb
+            # (the index stays alive until the next one is about to be made: see above)
             if g % 5 == 4:
+                edb = None
                 gc.collect()
+        edb = None
         acc.add("generations.schemes", short)
 
 
@@ -756,8 +766,11 @@ def run_interrupted(spec, acc, ctx, mode, sig_prefix=""):
                 total = cnt.lines
                 if not cnt.ok or total < 2:
                     continue
-                cuts = [rng.randint(max(1, total // 4), max(1, total - 1))] + \
-                    sorted({1, total // 3, total // 2, total - 1, rng.randint(1, total)})
+                # (the first cut of a keyword is the one that meets an untouched object: early in the operation for the
+                # keyword with the longest list - little has been produced by then -, anywhere for the others)
+                first_cut = rng.randint(max(1, total // 50), max(1, total // 4)) if w == words[0][0] \
+                    else rng.randint(1, max(1, total - 1))
+                cuts = [first_cut] + sorted({1, total // 3, total // 2, total - 1, rng.randint(1, total)})
                 for k in cuts:
                     if k < 1:
                         continue
